@@ -64,6 +64,7 @@ def items():
         Fn(GEN, "format_token_reference", mode="stub", proved_in="tok"),
         Fn(GEN, "format_end_token", mode="stub", proved_in="tok"),
         Fn(TU, "prepend_newline_indent", mode="stub", contract="ensures node.same_sem(&r),"),
+        Fn(TU, "join_trailing_trivia", mode="stub", proved_in="tok"),
         Fn(GEN, "format_punctuated", sig_edits=[Hole("T: std::fmt::Display,", "", kind="proxy", why="the Display bound is only used for a width")], contract="""
     requires forall|i: int, s: Shape| 0 <= i < ppairs(*old).len() ==> #[trigger] value_formatter.requires((ctx, &pair_value(ppairs(*old)[i]), s)),
     ensures ppairs(r).len() == ppairs(*old).len(), //# C02.list_same_length
@@ -82,7 +83,7 @@ def items():
             forall|i: int| 0 <= i < ppairs(*old).len() ==> by_item_formatter_modulo_trivia(value_formatter, ctx, pair_value(#[trigger] ppairs(*old)[i]), pair_value(ppairs(r)[i])), //# C02.list_items_by_the_formatter
 """, edits=[
             Hole("for (idx, pair) in old.pairs().enumerate() {", "let mut vx_it = peekable(old.pairs());\n    let ghost mut k: int = 0;\n    let mut idx: usize = 0;\n    while let Some(pair) = vx_it.next() {", kind="desugar", why="for over an enumerated iterator: written as its definition (a counter next to the Peekable wrapper)"),
-            Hole("trailing_comments.append(&mut punctuation.trailing_trivia().cloned().collect());", "let mut vx_more = hole_vec_token(); trailing_comments.append(&mut vx_more);", why="iterator chain: the trailing trivia of the formatted comma (comment handling, see C03)"),
+            Hole("punctuation.trailing_trivia().cloned().collect(),", "hole_vec_token(),", why="iterator chain: the trailing trivia of the formatted comma, joined behind the item's comments by join_trailing_trivia (verified in unit tok)"),
             Hole("Pair::Punctuated(value, punctuation) => {", "Pair::Punctuated(value, punctuation) => { let ghost vx_in = value; proof { assert(value_formatter.requires((ctx, &pair_value(ppairs(*old)[k]), shape))); }", why="ghost name for the input item (the formatted one shadows it) and the instance of the formatter's precondition"),
             Hole("Pair::End(value) => {", "Pair::End(value) => { let ghost vx_in = value; proof { assert(value_formatter.requires((ctx, &pair_value(ppairs(*old)[k]), shape))); }", why="ghost name for the input item and the instance of the formatter's precondition"),
             After("let value = value_formatter(ctx, value, shape);", "let ghost vx_v = value;", count=2),
@@ -122,7 +123,8 @@ pub trait HasInlineComments { fn has_inline_comments(&self) -> bool; }
         let ghost vx_w = formatted_argument;""", kind="ghost-name", why="the formatter's result and the indented item get ghost names (a `let` splits the method chain; no executable effect)"),
             Hole("formatted_argument.trailing_comments_search(CommentSearch::Multiline);", "hole_vec_token();", why="GetTrailingTrivia default method (iterator chain): comment handling, see C03"),
             Hole("formatted_argument.trailing_comments_search(CommentSearch::Single);", "hole_vec_token();", why="GetTrailingTrivia default method (iterator chain): comment handling, see C03"),
-            Between("let mut trailing_trivia: Vec<_> = symbol", ".collect();", "let mut trailing_trivia: Vec<Token> = hole_vec_token();", why="iterator chain: the comments in front of the comma and behind the argument, moved behind the comma (see C03)"),
+            Between("let leading_comments: Vec<_> = symbol", ".collect();", "let leading_comments: Vec<Token> = hole_vec_token();", why="iterator chain: the comments in front of the comma, each put on a line of its own"),
+            Hole("symbol.trailing_trivia().cloned().collect(),", "hole_vec_token(),", why="iterator chain: the trailing trivia of the formatted comma; the three lists are joined by join_trailing_trivia (verified in unit tok)"),
             Hole("formatted_arguments.push(Pair::new(formatted_argument, punctuation))", "proof { assert(argument_formatter.ensures((ctx, &pair_value(ppairs(*arguments)[k]), shape), vx_v) && lead_rel(vx_v, vx_w) && trail_rel(vx_w, formatted_argument)); }\n        formatted_arguments.push(Pair::new(formatted_argument, punctuation))", why="proof hint: the three steps from the formatter's result to the pushed item"),
             Loop("while let Some(argument) = vx_it.next()", loop_inv("*arguments", "formatted_arguments", "by_item_formatter_modulo_trivia").replace("{FMT}", "argument_formatter"), step="proof { k = k + 1; }"),
         ]),
